@@ -1,6 +1,7 @@
 import Driver.Proto
 import XsdataModel.Py.TblEnv
 import XsdataModel.Bind.Write
+import XsdataModel.Bind.F1
 open Lean Proto Py Xs.Bind
 
 namespace OpsBind
@@ -277,6 +278,10 @@ def run (op : String) (a : Json) : Option (Except String Json) :=
           match parseRoot benv Γ (dCfg (field a "config")) c t with
           | .ok (v', w) => ok (jObj [("value", jVal v'), ("warnings", jNat w)])
           | .error e => jErr e
+  | "bind.ctxF1" => some do
+      -- fragment F1 of C01 (`Xs.Bind.F1.ctxF1`) evaluated on an exported universe
+      let Γ ← dCtx (field a "ctx")
+      pure (ok (jBool (F1.ctxF1 Γ)))
   | _ => none
 
 end OpsBind
